@@ -177,6 +177,16 @@ def py_sexp(t, p):
     raise Unmodelable(p)
 
 
+class _Always(object):
+    """an 'rng' that always takes the first (canonical) scalar form and always gives DEFAULT members"""
+
+    def random(self):
+        return 0.0
+
+    def choice(self, xs):
+        return xs[0]
+
+
 class Unmodelable(Exception):
     pass
 
@@ -320,7 +330,7 @@ def model_encpy(drv, mode, t, sx):
     raise common.MachineryError('driver: %s' % ans)
 
 
-def check_native(rep, drv, case, rng, with_model=True):
+def check_native(rep, drv, case, rng, with_model=True, force_opts=False):
     """(a) + NATIVE_TO / NATIVE_FROM correspondence"""
     t, v = case.t, case.v
     obj = case.fresh_obj()
@@ -337,7 +347,7 @@ def check_native(rep, drv, case, rng, with_model=True):
                  dict(case.replay, kind='native'))
         return
     opts = {}
-    if rng is not None and rng.random() < 0.3:
+    if force_opts or (rng is not None and rng.random() < 0.3):
         opts = {'someOption': True}        # keyword options must travel through every decoder (T8b)
     try:
         back = ndec.decode(py, asn1Spec=case.schema, **opts)
@@ -425,6 +435,23 @@ def check_tree(rep, drv, case, rng, chunk, tseed, with_model=True):
         rep.corr_checked += 1
         if ans != 'ok ' + py_sexp(t, canon):
             rep.disagree('TREE', dict(case.replay), ans[:400], py_sexp(t, canon)[:400])
+        ginfo = TreeInfo()
+        given = build_tree(t, v, _Always(), 1.0, ginfo)
+        ans = drv.ask('TREE 1 %s %s' % (gen.ty_sexp(t), gen.val_sexp(v)))
+        rep.corr_checked += 1
+        if ans != 'ok ' + py_sexp(t, given):
+            rep.disagree('TREE', dict(case.replay, give=1), ans[:400], py_sexp(t, given)[:400])
+        # how much of the sample lies inside the hypotheses of the Lean theorems
+        ht = drv.ask('HASTYPE %s %s' % (gen.ty_sexp(t), gen.val_sexp(v)))
+        d0 = drv.ask('DEFAULTSOK 0 %s' % gen.ty_sexp(t))
+        d1 = drv.ask('DEFAULTSOK 1 %s' % gen.ty_sexp(t))
+        rep.count('theorem-region:HasType' if ht == 'ok 1' else 'theorem-region:not-HasType')
+        if ht == 'ok 1':
+            rep.count('theorem-region:pytree_encoding_partial' if d0 == 'ok 1' else 'theorem-region:outside(T11/T12 guard)')
+            rep.count('theorem-region:pytree_encoding_given_partial' if d1 == 'ok 1' else 'theorem-region:given-outside(D17/T11/T12 guard)')
+            if d0 == 'ok 1':
+                # inside the theorem the canonical tree MUST encode to the value object's bytes: checked below, flagged here
+                pass
     trng = random.Random(tseed)
     trees = [(canon, TreeInfo())]
     for give_p in (1.0, 0.5):
@@ -498,7 +525,7 @@ def check_tree(rep, drv, case, rng, chunk, tseed, with_model=True):
 def check_one(rep, drv, case, r):
     kind = r.get('kind', 'tree')
     if kind.startswith('native'):
-        check_native(rep, drv, case, random.Random(1) if r.get('options') else None, with_model=True)
+        check_native(rep, drv, case, None, with_model=True, force_opts=bool(r.get('options')))
         if kind == 'native-tree':
             check_native(rep, drv, case, random.Random(r.get('tseed', 0)))
     else:
@@ -668,7 +695,8 @@ def run(rep, tier, seed):
     for ts, vs in CORPUS:
         case = engine.Case(ty_of(ts), gen.val_of_sexp(gen.parse_sexps(vs)[0]))
         rep.case('corpus ' + case.canon, nontrivial=True)
-        check_native(rep, drv, case, random.Random(0))
+        check_native(rep, drv, case, random.Random(0), force_opts=True)
+        check_native(rep, drv, case, None)
         for chunk in (2, 1):
             check_tree(rep, drv, case, rng, chunk, 0)
     run_specials(rep)
